@@ -99,6 +99,10 @@ def caf_post(ctx):
         _, names, loc, fr = ai
         conj += [n > 0, H.getf(last, "is_exiting") != mkbool(False), Not(Val.is_none(nxt)), fr == nxt,
                  Implies(H.length(names) > 0, H.getf(last, "obj") == H.dget(loc, H.at(names, 0)))]
+    else:
+        # ... and it IS looked up whenever there is an exiting context and a next frame - whatever that frame's function is called,
+        # whoever implements it: no further condition (C01 / C02: the exiting manager is identified)
+        conj += [Not(And(n > 0, H.getf(last, "is_exiting") == mkbool(True), Not(Val.is_none(nxt))))]
     return And(conj)
 
 
